@@ -608,7 +608,7 @@ func c18Run(ctx *Ctx, ndocs int) error {
 			continue
 		}
 		for i := range k.c.Ops {
-			resp, err := k.p.Call(J{"do": "serve", "req": J{"method": c18Method(i), "url": "http://h" + c18Path(i)}, "opt": J{"sel": 0, "status": 200}})
+			resp, err := k.p.Call(J{"do": "serve", "req": J{"method": c18Method(i), "url": "http://h" + c18Path(i)}, "opt": J{"sel": 0, "status": 200, "warm": i % 2}}) // every other operation has served the request before
 			if err != nil {
 				return err
 			}
